@@ -193,6 +193,9 @@ def gen_jobs(ctx):
         r = gramgen.nullable2_grammar(rng)
         if r is not None:
             jobs.append(("null2_%d" % i, r[1], list(gramgen.all_strings(["a", "b"], 4 if quick else 5)), cap))
+        r = gramgen.lexamb_grammar(rng)
+        if r is not None:
+            jobs.append(("lexamb%d" % i, r[1], list(gramgen.all_strings(["a", "b"], 5 if quick else 6)), cap))
     return jobs
 
 
@@ -245,6 +248,13 @@ def check_case(ctx, gname, gtext, c, st_out, ix_out, stats):
     if "iter_count" in c and (c["iter_count"] != n or c["nonlazy_iter_count"] != n):
         probs.append(("impl", "iteration yields %r/%r trees, len is %r"
                       % (c["iter_count"], c["nonlazy_iter_count"], n)))
+    # independent oracle: ambiguities == number of packed nodes with more than one alternative
+    # (nodes of the dump = distinct packed-node objects reachable from the root)
+    if nodup:
+        oamb = sum(1 for nd in nodes if len(nd) > 1)
+        if c["ambiguities"] != oamb:
+            probs.append(("impl", "forest.ambiguities=%r but %d packed nodes of the forest have more than one "
+                          "alternative" % (c["ambiguities"], oamb)))
     # independent oracle on small forests: len == number of distinct trees (when no dups)
     if n <= 400:
         try:
@@ -350,6 +360,9 @@ def run(ctx):
             else:
                 probs.append(("impl", "a packed node holds two identical alternatives"))
         # a duplicate alternative explains count/distinctness mismatches of the same forest
+        # a problem shown on the impl alone (concrete failing input) is reported in preference to a
+        # model/impl disagreement about the same forest
+        probs.sort(key=lambda pw: 0 if pw[0] == "impl" else 1)
         for who, what in probs:
             if kf_dup and who == "impl" and ("distinct" in what or "pairwise" in what):
                 continue
